@@ -176,7 +176,7 @@ def typestate_rule(ctx):
 
 def _self_cache_field(node):
     ch = attr_chain(node)
-    if ch and ch.startswith("self.cache."):
+    if ch and ch.startswith("self.cache.") and ch.count(".") == 2:
         return ch[len("self.cache."):]
     return None
 
@@ -233,31 +233,23 @@ def cache_map_rule(ctx):
                     res.undecide("%s in %s" % (norm_text(n), fi.qualname), "fill value is not an accessor call")
     # combined accessor overrides: (matrix, scalar log-det) order
     for cls in classes:
+        if cls is base or not any(a in cls.methods for a in ("weight", "weight_inverse", "logabsdet", "weight_and_logabsdet", "weight_inverse_and_logabsdet")):
+            continue  # the abstract base / a class inheriting every accessor is decided with its concrete users
         for name, want in COMBINED.items():
-            fi = cls.methods.get(name)
+            fi = cls.lookup_method(name)
             if fi is None:
                 continue
-            rets = [n for n in ast.walk(fi.node) if isinstance(n, ast.Return)]
-            for r in rets:
-                if not (isinstance(r.value, ast.Tuple) and len(r.value.elts) == 2):
-                    res.fail(Finding("CACHE-MAP", fi.module, fi.qualname, r, "%s must return a pair (matrix, logabsdet)" % name))
-                    continue
-                kinds = [_component_kind(fi, e) for e in r.value.elts]
-                if kinds[0] == "scalar" and kinds[1] == "matrix":
-                    res.fail(Finding("CACHE-MAP", fi.module, fi.qualname, r, "%s returns (logabsdet, matrix); callers unpack (matrix, logabsdet)" % name))
-                elif kinds == ["matrix", "scalar"]:
-                    res.ok("%s.%s returns (matrix, logabsdet)" % (cls.name, name))
-                else:
-                    # accessor calls by name
-                    e0, e1 = r.value.elts
-                    a0 = e0.func.attr if isinstance(e0, ast.Call) and isinstance(e0.func, ast.Attribute) else None
-                    a1 = e1.func.attr if isinstance(e1, ast.Call) and isinstance(e1.func, ast.Attribute) else None
-                    if (a0, a1) == (FIELD_ACCESSOR[want[0]], "logabsdet"):
-                        res.ok("%s.%s returns (%s(), logabsdet())" % (cls.name, name, a0))
-                    elif a0 == "logabsdet" or (a1 is not None and a1 != "logabsdet" and a1 in FIELD_ACCESSOR.values()):
-                        res.fail(Finding("CACHE-MAP", fi.module, fi.qualname, r, "%s returns (%s, %s) -- expected (%s(), logabsdet())" % (name, a0, a1, FIELD_ACCESSOR[want[0]])))
-                    else:
-                        res.undecide("%s.%s" % (cls.name, name), "cannot classify returned components %s" % kinds)
+            # decided in the matrix-word algebra (shared with C11): component 0 is W / W^-1,
+            # component 1 is + log|det W|, in any spelling and through private helpers
+            from .lin_word import combined_accessor_verdict
+
+            verdict, msg = combined_accessor_verdict(p, cls, name)
+            if verdict == "ok":
+                res.ok(msg)
+            elif verdict == "fail":
+                res.fail(Finding("CACHE-MAP", fi.module, fi.qualname, fi.node, msg, construct="components of %s.%s" % (cls.name, name)))
+            else:
+                res.undecide("%s.%s" % (cls.name, name), msg)
     if len(res.instances) < 6:
         raise AnalysisIncomplete("CACHE-MAP matched %d instances (< 6 confirmed by hand)" % len(res.instances))
     return res
@@ -310,78 +302,85 @@ def _resolve_in_block(block, name, upto):
 
 
 def cache_use_rule(ctx):
+    """Decided on the path-wise expansion of Linear.forward / inverse: the paths whose result
+    reads the cache must carry `not self.training` and `self.using_cache` in their path
+    condition (in any spelling: nested ifs, early return under the negation, ...), their outputs
+    must be X C^T + b / (X - b) C^-T in the matrix-word algebra, and their log-det +/- the
+    cached log-det exactly once."""
+    from ..astutil import cond_atoms
+    from ..linword import LinEval, Undecided, Val
+    from ..symexp import paths_of as _paths_of, uwalk as _uwalk
+
     p = ctx.p
     base, classes = linear_classes(p)
     res = RuleResult("CACHE-USE", "the cached branch is guarded by eval-mode and the flag, applies cache.weight / cache.inverse and adds +/- cache.logabsdet")
+
+    class _CacheEval(LinEval):
+        def _ev(self, e):
+            ch = attr_chain(e) if isinstance(e, ast.Attribute) else None
+            if ch in ("self.cache.weight", "self.cache.inverse"):
+                self.atoms.add("C", kind="general")
+                return Val.atom("C", self.atoms, inv=(ch == "self.cache.inverse"))
+            return LinEval._ev(self, e)
+
     for direction, field, sign in (("forward", "weight", 1), ("inverse", "inverse", -1)):
         fi = base.methods.get(direction)
         if fi is None:
             raise AnalysisIncomplete("Linear.%s missing" % direction)
-        cached, uncached, test = _branch_blocks(fi)
-        if cached is None:
+        cpaths = []
+        for pp in _paths_of(fi.node):
+            if pp.kind != "return":
+                continue
+            if any(_self_cache_field(n) for n in _uwalk(pp.ret)):
+                cpaths.append(pp)
+        if not cpaths:
             # no cached branch at all: nothing to be transparent about
             res.ok("Linear.%s has no cached branch" % direction, nontrivial=False)
             continue
-        from ..astutil import cond_atoms
-
-        atoms = cond_atoms(test, True)
-        if "not(self.training)" not in atoms or "self.using_cache" not in atoms:
-            res.fail(Finding("CACHE-USE", fi.module, fi.qualname, test, "cached branch must be guarded by `not self.training and self.using_cache`; found atoms %s" % sorted(atoms)))
-        else:
-            res.ok("Linear.%s: cached branch guarded by %s" % (direction, sorted(atoms)))
-        rets = [s for s in cached if isinstance(s, ast.Return)]
-        if len(rets) != 1 or not isinstance(rets[0].value, ast.Tuple) or len(rets[0].value.elts) != 2:
-            res.undecide("Linear.%s cached branch" % direction, "no single `return outputs, logabsdet`")
-            continue
-        out_e, ld_e = rets[0].value.elts
-        if isinstance(out_e, ast.Name):
-            out_e = _resolve_in_block(cached, out_e.id, rets[0]) or out_e
-        if isinstance(ld_e, ast.Name):
-            ld_e = _resolve_in_block(cached, ld_e.id, rets[0]) or ld_e
-        # outputs in the matrix-word algebra (nfstatic/linword.py): with C = cache.weight and
-        # cache.inverse = C^-1 (CACHE-MAP), forward must be X C^T + b and inverse (X - b) C^-T,
-        # in any spelling
-        from ..linword import LinEval, Undecided, Val
-        from ..symexp import paths_of as _paths_of
-
-        class _CacheEval(LinEval):
-            def _ev(self, e):
-                ch = attr_chain(e) if isinstance(e, ast.Attribute) else None
-                if ch in ("self.cache.weight", "self.cache.inverse"):
-                    self.atoms.add("C", kind="general")
-                    return Val.atom("C", self.atoms, inv=(ch == "self.cache.inverse"))
-                return LinEval._ev(self, e)
-
-        cpaths = [pp for pp in _paths_of(fi.node) if pp.kind == "return" and any("using_cache" in norm_text(raw) and pol for _, raw, pol in pp.conds)]
-        if len(cpaths) != 1 or not (isinstance(cpaths[0].ret, ast.Tuple) and len(cpaths[0].ret.elts) == 2):
-            res.undecide("Linear.%s cached outputs" % direction, "no single cached returning path")
-        else:
+        for pp in cpaths:
+            atoms = set()
+            for et, raw, pol in pp.conds:
+                atoms |= cond_atoms(raw, pol)
+            if "not(self.training)" not in atoms or "self.using_cache" not in atoms:
+                res.fail(Finding("CACHE-USE", fi.module, fi.qualname, pp.ret_node, "a result that reads the cache is reachable without `not self.training and self.using_cache` (path condition %s): training-mode or flag-off calls would use the memo" % sorted(atoms), construct="guard of the cached %s" % direction))
+            else:
+                res.ok("Linear.%s: cached result guarded by %s" % (direction, sorted(atoms)))
+            if not (isinstance(pp.ret, ast.Tuple) and len(pp.ret.elts) == 2):
+                res.undecide("Linear.%s cached branch" % direction, "does not return a pair")
+                continue
+            out_e, ld_e = pp.ret.elts
             ev = _CacheEval(p, base, xname=fi.params()[0][0])
             X, bb = Val.atom("X", ev.atoms), Val.atom("b", ev.atoms)
             ev.atoms.add("C", kind="general")
             C = Val.atom("C", ev.atoms)
             expect = X.mul(C.t()).add(bb) if direction == "forward" else X.add(bb, -1).mul(C.inv().t())
             try:
-                got = ev.mat(cpaths[0].ret.elts[0])
+                got = ev.mat(out_e)
             except Undecided as ex:
                 res.undecide("Linear.%s cached outputs" % direction, str(ex))
             else:
                 if got == expect:
                     res.ok("Linear.%s cached outputs = %s  (C = cache.weight, cache.inverse = C^-1)" % (direction, got.show()))
                 else:
-                    res.fail(Finding("CACHE-USE", fi.module, fi.qualname, cpaths[0].ret_node, "cached %s computes `%s` (C = cache.weight, C^-1 = cache.inverse) but the uncached map is `%s`" % (direction, got.show(), expect.show())))
-        # log-det sign
-        terms = signed_terms(ld_e)
-        found = []
-        for s, t in terms:
-            ps, factors = product_factors(t)
-            for f in factors:
-                if _self_cache_field(f) == "logabsdet":
-                    found.append(s * ps)
-        if found != [sign]:
-            res.fail(Finding("CACHE-USE", fi.module, fi.qualname, rets[0], "cached %s must return %scache.logabsdet exactly once; found signs %s" % (direction, "+" if sign > 0 else "-", found)))
-        else:
-            res.ok("Linear.%s returns %scache.logabsdet" % (direction, "+" if sign > 0 else "-"))
+                    res.fail(Finding("CACHE-USE", fi.module, fi.qualname, pp.ret_node, "cached %s computes `%s` (C = cache.weight, C^-1 = cache.inverse) but the uncached map is `%s`" % (direction, got.show(), expect.show()), construct="cached outputs of %s" % direction))
+            # which field is applied
+            used = {_self_cache_field(n) for n in _uwalk(out_e)} - {None}
+            if used != {field}:
+                res.fail(Finding("CACHE-USE", fi.module, fi.qualname, pp.ret_node, "cached %s applies cache.%s, expected cache.%s" % (direction, sorted(used), field), construct="cache field applied by %s" % direction))
+            else:
+                res.ok("Linear.%s applies cache.%s" % (direction, field))
+            # log-det sign
+            found = []
+            for sg, t in signed_terms(ld_e):
+                ps, factors = product_factors(t)
+                for f in factors:
+                    for sg2, t2 in (signed_terms(f) if isinstance(f, (ast.UnaryOp, ast.BinOp)) else [(1, f)]):
+                        if _self_cache_field(t2) == "logabsdet":
+                            found.append(sg * ps * sg2)
+            if found != [sign]:
+                res.fail(Finding("CACHE-USE", fi.module, fi.qualname, pp.ret_node, "cached %s must return %scache.logabsdet exactly once; found signs %s" % (direction, "+" if sign > 0 else "-", found), construct="cached log-det of %s" % direction))
+            else:
+                res.ok("Linear.%s returns %scache.logabsdet" % (direction, "+" if sign > 0 else "-"))
     return res
 
 
